@@ -23,6 +23,11 @@
  *        a block above 128 KiB must be refused (39f3df0), one of at most 128 KiB must decode, and whatever decodes stays
  *        within ZSTD_decompressBound; exactly sized / short fenced destinations.
  *
+ *   c06_r2 known <seed> | seqblocks1 <n> <blockSize> <kind> | macro1 <n> <windowLog> <maxBlockSize>      (round 3)
+ *        the two KNOWN interface limits reported narrowly: ZSTD_compressSequences with explicit blocks below 1 KiB vs
+ *        ZSTD_compressBound; ZSTD_DECOMPRESSION_MARGIN with the documented blockSize on a ZSTD_c_maxBlockSize-limited frame.
+ *        Everything next to them (blocks >= 1 KiB, the macro with the real block size, the function) must hold.
+ *
  * Output: "CASE ..." facts, "BAD <what> :: <case>" violations, "FAULT ... :: <case>" from the signal handler. */
 #define ZSTD_STATIC_LINKING_ONLY
 #define ZSTD_DISABLE_DEPRECATE_WARNINGS
@@ -543,6 +548,12 @@ static void producer_all(unsigned seed, int tier)
 /* hand-built v0.5 / v0.6 / v0.7 frames: one raw (type 1) or RLE (type 2) block of `size` bytes (3-byte header, 19-bit
    size) and the end block c0 00 00.  The one-shot legacy decoders accept raw blocks (v0.7: RLE blocks too) of up to
    524287 bytes; ZSTD_decompressBound must not be below what ZSTD_decompress produces. */
+static void print_hex_field(const unsigned char* f, size_t fs)
+{
+    size_t i; printf(" hex=");
+    if (fs > 140000) { printf("-"); return; }
+    for (i = 0; i < fs; i++) printf("%02x", f[i]);
+}
 static region L_src, L_dst;
 static void legacy_case(int ver, int type, size_t size)
 {
@@ -579,8 +590,9 @@ static void legacy_case(int ver, int type, size_t size)
         if (bnd != ZSTD_CONTENTSIZE_ERROR && bnd <= 600000) { dst = region_place(&L_dst, (size_t)bnd, 0); dec2 = ZSTD_decompress(dst, (size_t)bnd, f, fs);
             if (dec2 != dec) bad("legacy-decode-into-decompressBound-failed", (size_t)bnd, dec2); }
     }
-    printf("CASE fam=legacy ver=%d type=%d size=%zu dec=%lld bound=%lld\n", ver, type, size, ZSTD_isError(dec) ? -1LL : (long long)dec,
-           bnd == ZSTD_CONTENTSIZE_ERROR ? -1LL : (long long)bnd);
+    printf("CASE fam=legacy ver=%d type=%d size=%zu dec=%lld bound=%lld fcs=%lld", ver, type, size, ZSTD_isError(dec) ? -1LL : (long long)dec,
+           bnd == ZSTD_CONTENTSIZE_ERROR ? -1LL : (long long)bnd, ZSTD_isError(fcs) ? -1LL : (long long)fcs);
+    print_hex_field(f, fs); printf("\n");
 }
 static void legacy_init(void) { L_src = region_new(530000); L_dst = region_new(600000); }
 static void legacy_all(unsigned seed)
@@ -679,8 +691,9 @@ static void legacy2_case(int ver, unsigned nbSeq, size_t ml)
         if (bnd != ZSTD_CONTENTSIZE_ERROR && bnd <= cap) { dst = region_place(&L_dst, (size_t)bnd, 0); dec2 = ZSTD_decompress(dst, (size_t)bnd, f, fs);
             if (dec2 != dec) bad("legacy-decode-into-decompressBound-failed", (size_t)bnd, dec2); }
     }
-    printf("CASE fam=legacy2 ver=%d nbSeq=%u ml=%zu total=%zu dec=%lld bound=%lld\n", ver, nbSeq, ml, total, ZSTD_isError(dec) ? -1LL : (long long)dec,
-           bnd == ZSTD_CONTENTSIZE_ERROR ? -1LL : (long long)bnd);
+    printf("CASE fam=legacy2 ver=%d nbSeq=%u ml=%zu total=%zu dec=%lld bound=%lld fcs=%lld", ver, nbSeq, ml, total, ZSTD_isError(dec) ? -1LL : (long long)dec,
+           bnd == ZSTD_CONTENTSIZE_ERROR ? -1LL : (long long)bnd, ZSTD_isError(fcs) ? -1LL : (long long)fcs);
+    print_hex_field(f, fs); printf("\n");
 }
 static void legacy2_all(unsigned seed)
 {
@@ -694,6 +707,220 @@ static void legacy2_all(unsigned seed)
         for (nb = 1; nb <= 3; nb++) legacy2_case(ver, nb, 4 + rnd() % 131071);
     }
 }
+
+
+/* round 3: random small legacy frames for the tie of the frame walk (coq/Codec/LegacyInspect.v): every header shape
+   (v0.6 fcs field 0/1/2/8 bytes, v0.7 direct mode / dictID / fcs fields), blocks of every type incl. empty ones (v0.5 / v0.6
+   end the frame at ANY block whose cBlockSize is 0) and RLE, truncations.  Facts: ZSTD_findFrameCompressedSize, and
+   ZSTD_decompressBound of exactly that many bytes; when ZSTD_decompress accepts the frame the bound must cover it. */
+static unsigned g_caseSeed3;
+static void legacy3_case(unsigned k)
+{
+    unsigned char f[400]; size_t n = 0, hs, i, nb; int ver = 5 + (int)(rnd() % 3); unsigned fhd; size_t fcs, dec; unsigned long long bnd = ZSTD_CONTENTSIZE_ERROR;
+    static const unsigned fhds[] = { 0x00, 0x00, 0x20, 0x40, 0x80, 0xC0, 0x01, 0x02, 0x03, 0x23, 0x60, 0xE3, 0x04, 0x24 };
+    unsigned char* src; unsigned char* dst;
+    f[n++] = (unsigned char)(0x20 + ver); f[n++] = 0xB5; f[n++] = 0x2F; f[n++] = 0xFD;
+    fhd = (ver == 5) ? 0 : fhds[rnd() % (sizeof fhds / sizeof *fhds)];
+    if (ver == 6) fhd = (fhd & 0xC0) | 0x08;
+    f[n++] = (unsigned char)fhd;
+    if (ver == 6) { static const size_t w[4] = { 0, 1, 2, 8 }; hs = 5 + w[fhd >> 6]; }
+    else if (ver == 7) { static const size_t fw[4] = { 0, 2, 4, 8 }, dw[4] = { 0, 1, 2, 4 }; int const direct = (fhd >> 5) & 1;
+        hs = 5 + (size_t)!direct + dw[fhd & 3] + fw[fhd >> 6] + (size_t)(direct && !fw[fhd >> 6]); }
+    else hs = 5;
+    while (n < hs) f[n++] = (ver == 7 && n == 5 && !((fhd >> 5) & 1)) ? 0x50 : (unsigned char)(rnd() % 3 ? 0 : rnd());
+    nb = rnd() % 5;
+    for (i = 0; i < nb; i++) {
+        unsigned const type = rnd() % 3; size_t sz = (rnd() % 4 == 0) ? 0 : rnd() % 40; size_t payload; size_t j;
+        if (type == 0 && rnd() % 2 == 0 && n + 70 < sizeof f) {      /* a VALID compressed block (builder of legacy2): 1..3 sequences, any match length */
+            static const size_t mls[] = { 4, 9, 300, 43689, 43690, 65535, 65536, 131070, 131071, 131072, 131074 };
+            unsigned char blk[96]; size_t const ml = (rnd() % 2) ? mls[rnd() % 11] : 4 + rnd() % 131071;
+            size_t const bl = legacy2_block(blk, ver, 1 + rnd() % 3, ml);
+            f[n++] = 0; f[n++] = (unsigned char)(bl >> 8); f[n++] = (unsigned char)bl; memcpy(f + n, blk, bl); n += bl;
+            continue;
+        }
+        payload = (type == 2) ? 1 : sz;
+        if (type == 2 && rnd() % 3 == 0) sz = 131072 + rnd() % 393216;
+        f[n++] = (unsigned char)((type << 6) | ((sz >> 16) & 7)); f[n++] = (unsigned char)(sz >> 8); f[n++] = (unsigned char)sz;
+        for (j = 0; j < payload; j++) f[n++] = (unsigned char)rnd();
+    }
+    f[n++] = 0xC0; f[n++] = (unsigned char)(rnd() % 4 ? 0 : rnd()); f[n++] = (unsigned char)(rnd() % 4 ? 0 : rnd());
+    if (rnd() % 4 == 0) { size_t const cut = 1 + rnd() % 6; n = (n > cut + 4) ? n - cut : n; }      /* truncation */
+    snprintf(g_desc, sizeof g_desc, "legacy3 %u %u", g_caseSeed3, k);
+    src = L_src.hi - n; memcpy(src, f, n);                      /* the source ends at the fence: an over-read faults */
+    fcs = ZSTD_findFrameCompressedSize(src, n);
+    if (!ZSTD_isError(fcs)) { if (fcs > n) bad("legacy-findFrameCompressedSize-beyond-source", n, fcs); else { unsigned char* s2 = L_src.hi - fcs; memmove(s2, src, fcs); bnd = ZSTD_decompressBound(s2, fcs); memcpy(src, f, n); } }
+    dst = region_place(&L_dst, 600000, 0);
+    dec = ZSTD_isError(fcs) ? fcs : ZSTD_decompress(dst, 600000, src, fcs);
+    if (!ZSTD_isError(dec)) {
+        if (bnd == ZSTD_CONTENTSIZE_ERROR) bad("legacy-decompressBound-error-on-a-frame-that-decodes", dec, 0);
+        else if (bnd < dec) bad("legacy-decompressBound-below-decoded-size", (size_t)bnd, dec);
+    }
+    printf("CASE fam=legacy3 ver=%d k=%u n=%zu dec=%lld bound=%lld fcs=%lld", ver, k, n, ZSTD_isError(dec) ? -1LL : (long long)dec,
+           bnd == ZSTD_CONTENTSIZE_ERROR ? -1LL : (long long)bnd, ZSTD_isError(fcs) ? -1LL : (long long)fcs);
+    print_hex_field(src, n); printf("\n");
+}
+static void legacy3_one(unsigned seed, unsigned k) { g_caseSeed3 = seed; rseed(seed * 7919ULL + 5 + k * 104729ULL); legacy3_case(k); }
+static void legacy3_all(unsigned seed, unsigned count) { unsigned k; for (k = 0; k < count; k++) legacy3_one(seed, k); }
+
+
+/* =================================================================== round 3: the two KNOWN interface limits, reported narrowly */
+/* (a) ZSTD_compressSequences with explicit block delimiters emits one wire block per delimiter: blocks below 1 KiB (other than
+   the last) cost more than ZSTD_compressBound() pays for (known: C06-compressSequences-explicit-blocks-exceed-compressBound).
+   Blocks of 1 KiB or more must fit the bound; whatever is produced must decode; dst fenced. */
+static region K_src, K_dst, K_buf;
+static void seqblocks_case(size_t n, size_t bs, int kind)
+{
+    size_t const nb = (n + bs - 1) / bs, bound = ZSTD_compressBound(n); size_t i, r, r2; unsigned char* src; unsigned char* dst;
+    ZSTD_Sequence* const seqs = (ZSTD_Sequence*)calloc(nb + 1, sizeof(ZSTD_Sequence)); ZSTD_CCtx* const c = ZSTD_createCCtx();
+    snprintf(g_desc, sizeof g_desc, "seqblocks1 %zu %zu %d", n, bs, kind);
+    if (!seqs || !c || n > 300000 || bs == 0) exit(2);
+    src = K_src.hi - n; gen_input(src, n, kind, 99 + n + bs);
+    for (i = 0; i < nb; i++) { seqs[i].litLength = (unsigned)(((i + 1) * bs <= n) ? bs : n - i * bs); seqs[i].matchLength = 0; seqs[i].offset = 0; }
+    ZSTD_CCtx_setParameter(c, ZSTD_c_blockDelimiters, ZSTD_sf_explicitBlockDelimiters);
+    ZSTD_CCtx_setParameter(c, ZSTD_c_validateSequences, 1);
+    dst = region_place(&K_dst, bound, 0);
+    r = ZSTD_compressSequences(c, dst, bound, seqs, nb, src, n);
+    if (region_check(&K_dst, dst, bound, 0)) bad("write-outside-dst", bound, r);
+    if (!ZSTD_isError(r)) {
+        size_t const d = ZSTD_decompress(K_buf.lo, n + 64, dst, r);
+        if (r > bound) bad("returned-size-exceeds-capacity", bound, r);
+        if (d != n || memcmp(K_buf.lo, src, n)) bad("roundtrip-mismatch", n, d);
+    } else {
+        size_t const big = n + 4 * nb + 64;
+        ZSTD_CCtx_reset(c, ZSTD_reset_session_only);
+        dst = region_place(&K_dst, big, 1);
+        r2 = ZSTD_compressSequences(c, dst, big, seqs, nb, src, n);
+        if (region_check(&K_dst, dst, big, 1)) bad("write-outside-dst", big, r2);
+        if (ZSTD_isError(r2)) bad("explicit-blocks-fail-with-ample-capacity", big, r2);
+        else { size_t const d = ZSTD_decompress(K_buf.lo, n + 64, dst, r2);
+            if (d != n || memcmp(K_buf.lo, src, n)) bad("roundtrip-mismatch", n, d);
+            if (r2 <= bound) bad("bound-capacity-rejected-although-the-frame-fits", r2, r); }
+        if (bs >= 1024 || nb <= 1) bad("failed-with-ZSTD_compressBound-capacity", bound, r);          /* NOT the known limit */
+        else if (ZSTD_getErrorCode(r) != ZSTD_error_dstSize_tooSmall) bad("explicit-blocks-unexpected-error", bound, r);
+        else bad("explicit-small-blocks-exceed-compressBound", bound, r);                              /* the known limit */
+    }
+    printf("CASE fam=seqblocks n=%zu bs=%zu kind=%d nb=%zu bound=%zu ret=%lld\n", n, bs, kind, nb, bound, ZSTD_isError(r) ? -1LL : (long long)r);
+    ZSTD_freeCCtx(c); free(seqs);
+}
+/* (b) ZSTD_DECOMPRESSION_MARGIN(originalSize, blockSize) with the DOCUMENTED blockSize = MIN(windowSize, ZSTD_BLOCKSIZE_MAX) is
+   too small for frames written with ZSTD_c_maxBlockSize (known: C06-margin-macro-ignores-maxBlockSize); with blockSize read as
+   MIN(window, 128 KiB, maxBlockSize) it must work (theorem inplace_macro_margin), and so must ZSTD_decompressionMargin(). */
+static size_t inplace_try(const unsigned char* frame, size_t csize, size_t n, size_t margin, const unsigned char* ref)
+{
+    size_t const B = n + margin; unsigned char* buf; size_t r;
+    if (csize > B) return (size_t)-1;                                      /* the frame does not even fit the buffer */
+    buf = region_place(&K_buf, B, 0); memcpy(buf + B - csize, frame, csize);
+    r = ZSTD_decompress(buf, B, buf + B - csize, csize);
+    if (region_check(&K_buf, buf, B, 0)) bad("inplace-write-outside-buffer", B, r);
+    if (!ZSTD_isError(r) && (r != n || memcmp(buf, ref, n))) bad("inplace-wrong-content", B, r);
+    return r;
+}
+static void macro_case(size_t n, int wlog, int mbs)
+{
+    size_t const bound = ZSTD_compressBound(n); size_t csize, r; unsigned char* src; unsigned char* dst; ZSTD_CCtx* const c = ZSTD_createCCtx();
+    size_t const docB = ((size_t)1 << wlog) < ZSTD_BLOCKSIZE_MAX ? ((size_t)1 << wlog) : ZSTD_BLOCKSIZE_MAX;
+    size_t const realB = (mbs && (size_t)mbs < docB) ? (size_t)mbs : docB; size_t fm;
+    snprintf(g_desc, sizeof g_desc, "macro1 %zu %d %d", n, wlog, mbs);
+    if (!c || n > 1600000) exit(2);
+    src = K_src.hi - n; gen_input(src, n, K_NOISE, 7 + n);
+    ZSTD_CCtx_setParameter(c, ZSTD_c_windowLog, wlog);
+    if (mbs) ZSTD_CCtx_setParameter(c, ZSTD_c_maxBlockSize, mbs);
+    dst = region_place(&K_dst, bound, 0);
+    csize = ZSTD_compress2(c, dst, bound, src, n);
+    if (ZSTD_isError(csize)) { bad("failed-with-ZSTD_compressBound-capacity", bound, csize); ZSTD_freeCCtx(c); return; }
+    fm = ZSTD_decompressionMargin(dst, csize);
+    if (ZSTD_isError(fm)) bad("decompressionMargin-error-on-valid-frame", csize, fm);
+    else { r = inplace_try(dst, csize, n, fm, src); if (r != n) bad("inplace-with-function-margin-failed", fm, r); }
+    r = inplace_try(dst, csize, n, ZSTD_DECOMPRESSION_MARGIN(n, realB), src);
+    if (r != n) bad("inplace-with-macro-margin-failed", ZSTD_DECOMPRESSION_MARGIN(n, realB), r);            /* NOT the known limit */
+    r = inplace_try(dst, csize, n, ZSTD_DECOMPRESSION_MARGIN(n, docB), src);
+    if (r != n) { if (realB < docB) bad("macro-margin-documented-blockSize-too-small-with-maxBlockSize", ZSTD_DECOMPRESSION_MARGIN(n, docB), r == (size_t)-1 ? 0 : r);
+                  else bad("inplace-with-macro-margin-failed", ZSTD_DECOMPRESSION_MARGIN(n, docB), r); }
+    printf("CASE fam=macro n=%zu wlog=%d mbs=%d csize=%zu fmargin=%zu docMargin=%zu realMargin=%zu docOk=%d\n", n, wlog, mbs, csize, fm,
+           (size_t)ZSTD_DECOMPRESSION_MARGIN(n, docB), (size_t)ZSTD_DECOMPRESSION_MARGIN(n, realB), r == n);
+    ZSTD_freeCCtx(c);
+}
+static void known_init(void) { K_src = region_new(1600000 + 64); K_dst = region_new(ZSTD_compressBound(1600000) + 1200000); K_buf = region_new(1600000 + 140000 + 8192); }
+static void known_all(unsigned seed)
+{
+    rseed(seed + 4242);
+    seqblocks_case(65536, 100, K_NOISE); seqblocks_case(65536, 700, K_NOISE); seqblocks_case(1000, 3, K_NOISE); seqblocks_case(20000, 1, K_TEXT);
+    seqblocks_case(65536, 1023, K_NOISE); seqblocks_case(200000, 1024, K_NOISE); seqblocks_case(200000, 1025, K_NOISE); seqblocks_case(262144, 2048, K_NOISE);
+    seqblocks_case(100000, 100000, K_NOISE); seqblocks_case(150000, 131072, K_TEXT); seqblocks_case(50000 + rnd() % 100000, 1024 + rnd() % 3000, K_NOISE);
+    seqblocks_case(3000 + rnd() % 50000, 1 + rnd() % 900, K_NOISE);
+    macro_case(1500000, 11, 1024); macro_case(1500000, 11, 0); macro_case(1500000, 12, 1024); macro_case(1200000, 17, 0); macro_case(1000000 + rnd() % 500000, 11, 1024);
+    macro_case(300000, 11, 1024); macro_case(1500000, 13, 4096);
+}
+
+
+/* round 3: concatenations of legacy (v0.5-v0.7), zstd1 and skippable frames: ZSTD_decompressBound of the whole = sum of the
+   frames' own bounds >= what ZSTD_decompress regenerates; ZSTD_findFrameCompressedSize at every frame start = that frame's
+   length; ZSTD_findDecompressedSize = sum of the declared sizes or "unknown" (legacy v0.5 frames declare none); the whole
+   decodes into exactly the regenerated size (fenced), one byte less fails. */
+static unsigned g_caseSeed;
+static void concat_case(unsigned k)
+{
+    static unsigned char buf[700000]; static unsigned char content[1400000]; static unsigned char tmp[400000];
+    size_t n = 0, total = 0, starts[8], lens[8], nf = 1 + rnd() % 5, i; unsigned long long sumBound = 0, wb; int anyLegacy5 = 0; size_t dec; unsigned char* src; unsigned char* dst;
+    snprintf(g_desc, sizeof g_desc, "concat1 %u %u", g_caseSeed, k);
+    for (i = 0; i < nf; i++) {
+        unsigned const kind = rnd() % 4; size_t fl = 0, cl = 0;
+        starts[i] = n;
+        if (kind == 0) {                 /* skippable */
+            size_t const pl = rnd() % 50; size_t j; for (j = 0; j < pl; j++) tmp[j] = (unsigned char)rnd();
+            fl = ZSTD_writeSkippableFrame(buf + n, sizeof buf - n, tmp, pl, rnd() % 16); if (ZSTD_isError(fl)) exit(2);
+        } else if (kind == 1) {          /* zstd1, content size known or not (streaming without pledge) */
+            size_t const sl = (rnd() % 3 == 0) ? 0 : rnd() % 200000; int const knownSize = (int)(rnd() & 1);
+            gen_input(tmp, sl, (int)(rnd() % K_NB), k * 31 + i);
+            {   ZSTD_CCtx* const c = ZSTD_createCCtx(); ZSTD_inBuffer in; ZSTD_outBuffer out; size_t r;
+                ZSTD_CCtx_setParameter(c, ZSTD_c_checksumFlag, (int)(rnd() & 1));
+                if (rnd() % 3 == 0) ZSTD_CCtx_setParameter(c, ZSTD_c_windowLog, 10 + (int)(rnd() % 8));
+                if (knownSize) fl = ZSTD_compress2(c, buf + n, sizeof buf - n, tmp, sl);
+                else { in.src = tmp; in.size = sl; in.pos = 0; out.dst = buf + n; out.size = sizeof buf - n; out.pos = 0;
+                       r = ZSTD_compressStream2(c, &out, &in, ZSTD_e_end); fl = (r == 0) ? out.pos : (size_t)-1; }
+                ZSTD_freeCCtx(c); if (ZSTD_isError(fl) || fl == (size_t)-1) exit(2);
+            }
+            memcpy(content + total, tmp, sl); cl = sl;
+        } else {                          /* legacy: one raw block, or one valid compressed block */
+            int const ver = 5 + (int)(rnd() % 3); size_t hl = 0; unsigned char* f = buf + n;
+            f[hl++] = (unsigned char)(0x20 + ver); f[hl++] = 0xB5; f[hl++] = 0x2F; f[hl++] = 0xFD; f[hl++] = (ver == 6) ? 0x08 : 0x00; if (ver == 7) f[hl++] = 0x50;
+            if (ver == 5) anyLegacy5 = 1;
+            if (kind == 2) { size_t const sz = 1 + rnd() % 150000; size_t j; f[hl++] = (unsigned char)(0x40 | (sz >> 16)); f[hl++] = (unsigned char)(sz >> 8); f[hl++] = (unsigned char)sz;
+                for (j = 0; j < sz; j++) f[hl + j] = (unsigned char)('a' + (j * 13 + i) % 26); memcpy(content + total, f + hl, sz); hl += sz; cl = sz; }
+            else { unsigned const nbSeq = 1 + rnd() % 3; size_t const ml = 8 + rnd() % (131072 / nbSeq - 9); unsigned char blk[96]; size_t const bl = legacy2_block(blk, ver, nbSeq, ml); size_t j;
+                f[hl++] = 0; f[hl++] = (unsigned char)(bl >> 8); f[hl++] = (unsigned char)bl; memcpy(f + hl, blk, bl); hl += bl;
+                cl = (size_t)nbSeq * (1 + ml); for (j = 0; j < cl; j++) content[total + j] = (unsigned char)('A' + j / (1 + ml)); }
+            f[hl++] = 0xC0; f[hl++] = 0; f[hl++] = 0; fl = hl;
+        }
+        lens[i] = fl; n += fl; total += cl;
+        {   static unsigned char one[400000]; size_t const d1 = ZSTD_decompress(one, sizeof one, buf + starts[i], fl);
+            if (d1 != cl || memcmp(one, content + total - cl, cl)) bad("concat-single-frame-decode-failed", kind * 100 + buf[starts[i]], d1); }
+        {   unsigned long long const b1 = ZSTD_decompressBound(buf + starts[i], fl);
+            if (b1 == ZSTD_CONTENTSIZE_ERROR) bad("concat-frame-bound-error", fl, 0); else { sumBound += b1; if (b1 < cl) bad("decompressBound-below-decoded-size", (size_t)b1, cl); } }
+        if (n + 400000 > sizeof buf || total + 400000 > sizeof content) { nf = i + 1; break; }
+    }
+    src = L_src.hi - n;  /* L_src holds 530000 bytes */
+    if (n > 520000) { printf("CASE fam=concat k=%u skipped=1\n", k); return; }
+    memcpy(src, buf, n);
+    wb = ZSTD_decompressBound(src, n);
+    if (wb != sumBound) bad("concat-decompressBound-is-not-the-sum", (size_t)wb, (size_t)sumBound);
+    for (i = 0; i < nf; i++) { size_t const fc = ZSTD_findFrameCompressedSize(src + starts[i], n - starts[i]); if (fc != lens[i]) bad("concat-findFrameCompressedSize-differs", lens[i], fc); }
+    {   unsigned long long const fds = ZSTD_findDecompressedSize(src, n);
+        if (fds == ZSTD_CONTENTSIZE_ERROR) bad("concat-findDecompressedSize-error", n, 0);
+        else if (fds != ZSTD_CONTENTSIZE_UNKNOWN && fds != total) bad("concat-findDecompressedSize-wrong", (size_t)fds, total); }
+    if (total > 1300000) { printf("CASE fam=concat k=%u skipped=2\n", k); return; }
+    {   static region R; static int init; if (!init) { R = region_new(1400000); init = 1; }
+        dst = region_place(&R, total, 0); dec = ZSTD_decompress(dst, total, src, n);
+        if (region_check(&R, dst, total, 0)) bad("write-outside-dst", total, dec);
+        if (dec != total || memcmp(dst, content, total)) bad("concat-decode-mismatch", total, dec);
+        if (total) { dst = region_place(&R, total - 1, 0); dec = ZSTD_decompress(dst, total - 1, src, n);
+            if (region_check(&R, dst, total - 1, 0)) bad("write-outside-dst", total - 1, dec);
+            if (!ZSTD_isError(dec)) bad("concat-accepted-short-capacity", total - 1, dec); }
+    }
+    printf("CASE fam=concat k=%u nf=%zu n=%zu total=%zu bound=%llu legacy5=%d\n", k, nf, n, total, wb, anyLegacy5);
+}
+static void concat_one(unsigned seed, unsigned k) { g_caseSeed = seed; rseed(seed * 104729ULL + 9 + k * 7919ULL); concat_case(k); }
+static void concat_all(unsigned seed, unsigned count) { unsigned k; for (k = 0; k < count; k++) concat_one(seed, k); }
 
 int main(int argc, char** argv)
 {
@@ -714,9 +941,14 @@ int main(int argc, char** argv)
         if (p.B * p.nblocks > (4u << 20) || p.B < 1024) { fprintf(stderr, "bad size\n"); return 2; }
         producer_case(&p);
     }
-    else if (argc >= 3 && !strcmp(argv[1], "legacy")) { legacy_init(); legacy_all((unsigned)atoi(argv[2])); legacy2_all((unsigned)atoi(argv[2])); }
+    else if (argc >= 3 && !strcmp(argv[1], "legacy")) { legacy_init(); legacy_all((unsigned)atoi(argv[2])); legacy2_all((unsigned)atoi(argv[2])); legacy3_all((unsigned)atoi(argv[2]), (argc > 3 && atoi(argv[3])) ? 2000 : 300); concat_all((unsigned)atoi(argv[2]), (argc > 3 && atoi(argv[3])) ? 300 : 40); }
     else if (argc >= 5 && !strcmp(argv[1], "legacy2")) { legacy_init(); legacy2_case(atoi(argv[2]), (unsigned)atoi(argv[3]), (size_t)strtoull(argv[4], NULL, 10)); }
     else if (argc >= 5 && !strcmp(argv[1], "legacy1")) { legacy_init(); legacy_case(atoi(argv[2]), atoi(argv[3]), (size_t)strtoull(argv[4], NULL, 10)); }
+    else if (argc >= 4 && !strcmp(argv[1], "legacy3")) { legacy_init(); legacy3_one((unsigned)atoi(argv[2]), (unsigned)atoi(argv[3])); }
+    else if (argc >= 4 && !strcmp(argv[1], "concat1")) { legacy_init(); concat_one((unsigned)atoi(argv[2]), (unsigned)atoi(argv[3])); }
+    else if (argc >= 3 && !strcmp(argv[1], "known")) { known_init(); known_all((unsigned)atoi(argv[2])); }
+    else if (argc >= 5 && !strcmp(argv[1], "seqblocks1")) { known_init(); seqblocks_case((size_t)strtoull(argv[2], NULL, 10), (size_t)strtoull(argv[3], NULL, 10), atoi(argv[4])); }
+    else if (argc >= 5 && !strcmp(argv[1], "macro1")) { known_init(); macro_case((size_t)strtoull(argv[2], NULL, 10), atoi(argv[3]), atoi(argv[4])); }
     else { fprintf(stderr, "usage: see the header comment\n"); return 2; }
     printf("DONE bad=%u\n", g_nbBad);
     return g_nbBad ? 1 : 0;
